@@ -288,7 +288,7 @@ def judge_fast(case, impl, model):
                 what = "serializer-wrapper-differs"
         if what:
             tag_list = [t for t in model.get("fastDefects", []) if t != "fast:serialize-none"]
-            in_region = bool(mapper_free and model.get("fsafe") and model.get("fplain")
+            in_region = bool(mapper_free and not case.get("nonFast") and model.get("fsafe") and model.get("fwf")
                              and "fast:compact-conditions" not in tag_list)
             explained = m_fast is None
             key = attribute(what, in_region, explained, tag_list)
